@@ -419,6 +419,28 @@ mut("quartic-dedup", ["C14"],
 	licenses = removeDuplicateStrings(licenses)
 """))
 
+mut("cpu-only-quartic-scan", ["C14"],
+    "the scanner re-validates all earlier tokens for every new token with a triple loop: n^4 CPU time, no allocation",
+    (SCAN, """		tokens = append(tokens, *token)
+	}
+	return tokens, nil""",
+     """		tokens = append(tokens, *token)
+		cnt := 0
+		for i := range tokens {
+			for j := range tokens {
+				for k := range tokens {
+					if tokens[i].role == tokens[j].role && tokens[j].role == tokens[k].role {
+						cnt++
+					}
+				}
+			}
+		}
+		if cnt < 0 {
+			return nil, errors.New("unreachable")
+		}
+	}
+	return tokens, nil"""))
+
 # ---- C15 -----------------------------------------------------------------------------------------
 mut("offset-off-by-one", ["C15"],
     "unknown-license offsets are reported one too high when the id follows an opening parenthesis",
